@@ -165,12 +165,13 @@ Den(a, docs, D, U) ==
          [nodocs |-> D = {},
           bs |-> [j \in 1..(Len(P) - 1) |->
             LET BD == {i \in D : DocInRange(docs[i], a, P[j], P[j + 1])} IN
-            [lo |-> P[j], hi |-> P[j + 1], cnt |-> SumOver([i \in BD |-> RangeCnt(docs[i], a, P[j], P[j + 1])], BD),
+            [lo |-> P[j], hi |-> P[j + 1],
+             cnt |-> IF ValueCounts THEN SumOver([i \in BD |-> RangeCnt(docs[i], a, P[j], P[j + 1])], BD) ELSE Cardinality(BD),
              sub |-> DenSubs(a.sub, docs, BD, BD)]]]
        [] IsHist(a) ->
          LET KD(k) == {i \in D : k \in DocHKeys(a, docs[i])}
              keys == UNION {DocHKeys(a, docs[i]) : i \in D}
-             cnt(k) == SumOver([i \in KD(k) |-> HistCnt(docs[i], a, k)], KD(k))
+             cnt(k) == IF ValueCounts THEN SumOver([i \in KD(k) |-> HistCnt(docs[i], a, k)], KD(k)) ELSE Cardinality(KD(k))
              exp == IF a.mdc = 0 THEN HistSpan(a, keys) \cup keys ELSE {k \in keys : cnt(k) >= a.mdc}
          IN [k \in exp |-> [cnt |-> cnt(k), sub |-> DenSubs(a.sub, docs, KD(k), KD(k))]]
        [] a.k = "filter" ->
@@ -182,7 +183,9 @@ Den(a, docs, D, U) ==
          IN [key \in keys |-> [cnt |-> SumOver([i \in KD(key) |-> CompCnt(docs[i], a, key)], KD(key)),
                                 sub |-> DenSubs(a.sub, docs, KD(key), KD(key))]]
        [] a.k = "top_hits" ->
-         [id \in {docs[i].id[1] : i \in D} |-> HitOf(a, docs[CHOOSE i \in D : docs[i].id[1] = id])]
+         \* hits are identified by the document id, which is the index of the document in the corpus
+         \* (docs[i].id = <<i>>: AddDoc numbers them so, the trace specification checks it of a recorded case)
+         [i \in D |-> HitOf(a, docs[i])]
 
 (* the regime in which the property promises exact results: for every terms aggregation of the *)
 (* tree the number of distinct terms a segment can hold (including the `missing` key) is at     *)
